@@ -10,7 +10,7 @@ import PnVerif.Model.Layout
       -> OK <xsz> <begin_var> <begin_rec> <recsize> <h_align> <v_align> <r_align> <n> {<isRec> <len> <begin>}*n | <hex of Hdr.encode>
          ERR <NC code>
     ENCL <schema, begin fields set, vsize fields = variable lengths>   -> <hex of Hdr.encode> | ERR code
-    OPENINFO <hex> -> Header.decodeWhole (what ncmpi_open leaves in memory): OK <xsz> <begin_var> <begin_rec> <recsize> | ERR code
+    OPENINFO <0|1> <hex> -> Header.decodeWholeV (what ncmpi_open leaves in memory; 1 = tree with the repair of FB2-1): OK <xsz> <begin_var> <begin_rec> <recsize> | ERR code
     SPEC <hex>    -> Spec.header: OK <schema as stored> | <refsOk> <bytes consumed>    or NONE
 
   schema / hex syntax: PnVerif/Model/HeaderText.lean
@@ -76,11 +76,11 @@ def step (line : String) : String :=
       | .ok b => toHex b
       | .error e => s!"ERR {e.code}"
     | _ => "bad-schema"
-  | ["OPENINFO", hex] =>
+  | ["OPENINFO", v, hex] =>
     match ofHex hex with
     | none => "bad-hex"
     | some file =>
-      match decodeWhole file with
+      match decodeWholeV (v == "1") file with
       | .ok (_, info) => s!"OK {info.xsz} {info.beginVar} {info.beginRec} {info.recsize}"
       | .error e => s!"ERR {e.code}"
   | ["SPEC", hex] =>
